@@ -360,7 +360,15 @@ fn gen_spec(r: &mut Rng) -> KSpec {
     for i in (1..names.len()).rev() {
         names.swap(i, r.below(i + 1));
     }
-    let labels = names[..n].iter().map(|l| (*l, r.pick_str(LVALS))).collect();
+    let mut labels: Vec<(&'static str, &'static str)> = names[..n].iter().map(|l| (*l, r.pick_str(LVALS))).collect();
+    // two labels with the SAME name and different values: `Key` equality treats two labels as an unordered pair,
+    // so both orders are one key and must hit one storage (this needs the hash to agree with equality)
+    if n == 2 && r.chance(1, 3) {
+        labels[1].0 = labels[0].0;
+        if labels[1].1 == labels[0].1 {
+            labels[1].1 = if labels[0].1 == "zz-other" { "zz-another" } else { "zz-other" };
+        }
+    }
     (name, labels)
 }
 
